@@ -2117,7 +2117,7 @@ template< size_t L>
 
    if (index < mLength)
    {
-      if (mLength + count <= L)
+      if (count <= L - mLength)
       {
          // aaaccccc\0, insert( 3, "bbbb")
          // length = 8, L > 11
@@ -2127,13 +2127,13 @@ template< size_t L>
          // --> aaabbbbccccc\0
          std::memcpy( &mString[ index], str, count);
          mLength += count;
-      } else if (index + count <= L)
+      } else if (count <= L - index)
       {
          // aaaccccc\0, insert( 3, "bbbb")
          // length = 8, L = 10
          // --> aaa____ccc\0
          std::memmove( &mString[ index + count], &mString[ index],
-            mLength - index + 1);
+            L - index - count);
          // --> aaabbbbccc\0
          std::memcpy( &mString[ index], str, count);
          mLength = L;
@@ -2148,7 +2148,7 @@ template< size_t L>
    } else
    {
       // append at the end
-      if (mLength + count > L)
+      if (count > L - mLength)
          count = L - mLength;
 
       std::memcpy( &mString[ mLength], str, count);
